@@ -164,6 +164,72 @@ func init() {
 					_ = ms
 					c.Case(0, true, out)
 				}})
+			// list openers that are never closed, far beyond any sensible depth: the parser descends once per opener
+			// before it can know that the input ends, and has to come back with a verdict (a goroutine stack is finite)
+			udepths := []int{10000, 10001, 100000, 1000000}
+			if tier == "thorough" {
+				udepths = append(udepths, 4000000)
+			}
+			useps := []string{"\n", " ", ""}
+			sp = append(sp, h.Space{Name: "unclosed-list-openers", Count: product(len(udepths), len(useps), 2), ChunkHint: 1,
+				Describe: func(i uint64) interface{} {
+					d := unrank(i, len(udepths), len(useps), 2)
+					return fmt.Sprintf("%d x \"<L%s\" (%s), never closed", udepths[d[0]], strconv.Quote(useps[d[1]]), []string{"bare", "each with a leaf before the next opener"}[d[2]])
+				},
+				Run: func(c *h.Ctx, i uint64) {
+					d := unrank(i, len(udepths), len(useps), 2)
+					open := "<L" + useps[d[1]]
+					if d[2] == 1 {
+						open = "<L" + useps[d[1]] + "<U1 1>" + useps[d[1]]
+					}
+					text := "S1F1 H->E " + strings.Repeat(open, udepths[d[0]])
+					_, out := totalParse(c, "unclosed-openers", text)
+					if out != "rejected" && out != "panic" && out != "bad" {
+						c.Fail("unclosed-input-accepted", fmt.Sprintf("%d unclosed list openers", udepths[d[0]]), out)
+					}
+					c.Case(0, true, out)
+				}})
+			// more sibling lists than the nesting limit, none of them nested: the limit counts depth, not lists
+			sibs := []int{10001, 20000}
+			sp = append(sp, h.Space{Name: "more-sibling-lists-than-the-nesting-limit", Count: uint64(len(sibs)) * 2, ChunkHint: 1,
+				Describe: func(i uint64) interface{} { return fmt.Sprintf("one list of %d lists (variant %d)", sibs[i/2], i%2) },
+				Run: func(c *h.Ctx, i uint64) {
+					child := "<L>\n"
+					if i%2 == 1 {
+						child = "<L <L <U1 1>>>\n"
+					}
+					text := "S1F1 H->E\n<L\n" + strings.Repeat(child, sibs[i/2]) + ">\n."
+					ms, out := totalParse(c, "sibling-lists", text)
+					if out != "accepted-1" || len(ms) != 1 || msgItem(ms[0]).Size() != sibs[i/2] {
+						c.Fail("valid-sibling-lists-rejected", fmt.Sprintf("one list of %d lists (variant %d)", sibs[i/2], i%2), out)
+					}
+					c.Case(0, true, out)
+				}})
+			// many items that reuse one ASCII variable name, each with a huge declared size: the memory needed must not be
+			// (number of duplicates) x (declared size)
+			dupCounts := []int{2, 17, 300}
+			if tier == "thorough" {
+				dupCounts = append(dupCounts, 2000)
+			}
+			dupDecls := []string{"[16777215]", "[1099511627776]", "[16777215..]", "[..16777215]", "[1000000]", ""}
+			sp = append(sp, h.Space{Name: "duplicated-ascii-variables-with-huge-declarations", Count: product(len(dupCounts), len(dupDecls), 2), ChunkHint: 1,
+				Describe: func(i uint64) interface{} {
+					d := unrank(i, len(dupCounts), len(dupDecls), 2)
+					return fmt.Sprintf("<A x> followed by %d x <A%s x>, %s", dupCounts[d[0]], dupDecls[d[1]], []string{"in one list", "in nested lists"}[d[2]])
+				},
+				Run: func(c *h.Ctx, i uint64) {
+					d := unrank(i, len(dupCounts), len(dupDecls), 2)
+					item := "<A" + dupDecls[d[1]] + " x> "
+					text := "S1F1 H->E <L <A x> " + strings.Repeat(item, dupCounts[d[0]]) + "> ."
+					if d[2] == 1 {
+						text = "S1F1 H->E <L <A x> " + strings.Repeat("<L "+item, dupCounts[d[0]]) + strings.Repeat(">", dupCounts[d[0]]) + "> ."
+					}
+					_, out := totalParse(c, "duplicated-ascii-variables", text)
+					if out != "rejected" && out != "panic" && out != "bad" {
+						c.Fail("duplicate-names-accepted", fmt.Sprintf("%d duplicates", dupCounts[d[0]]), out)
+					}
+					c.Case(0, true, out)
+				}})
 			// nested items that each declare a (huge) size: the declared sizes are checks, not allocation hints
 			szs := []string{"16777215", "16777216", "65536", "4294967295"}
 			ndep := []int{1, 2, 4, 8, 16, 32, 64, 256}
